@@ -500,11 +500,12 @@ def mode_params_rule(ctx, rule):
     casts = [st for st in iter_child_stmts(f.body) if isinstance(st, ast.Assign) and 'astype(revmap[type]' in norm(st.value)
              and any(norm(e.test) == 'dtype.name in typemap' for e, fld in cfgc.enclosing_tests(st) if isinstance(e, ast.If))]
     okc = False
-    for st in casts:
-        blk = [b for b in _blocks_of(f.body) if any(x is st for x in b)]
-        pre = blk[0][:[i for i, x in enumerate(blk[0]) if x is st][0]] if blk else []
-        okc = okc or any(isinstance(x, ast.If) and "dtype.kind == 'f'" in norm(x.test) and any(isinstance(r, ast.Raise) for r in ast.walk(x))
-                         and ('isfinite' in norm(x) and 'trunc' in norm(x)) for x in pre)
+    for st in walk_no_nested(f):
+        # accepted forms: a pre-check (finite and integral) or - stronger - comparing the cast result with the values
+        if isinstance(st, ast.If) and "dtype.kind == 'f'" in norm(st.test) and any(isinstance(r, ast.Raise) for r in ast.walk(st)):
+            body = norm(ast.Module(body=st.body, type_ignores=[]))
+            if ('isfinite' in body and 'trunc' in body) or ("astype('float64') != data.values" in body and '[' not in body.split("astype('float64') != data.values")[1][:3]):
+                okc = True
     ctx.ob(rule, 'writer.convert:lossy-float-to-integer-cast-refused', okc,
            'astype(int) turns NaN into the smallest integer and cuts fractions off; reached when a float frame is appended to an integer column', wr.loc(f))
     subs = [x for x in walk_no_nested(f) if isinstance(x, ast.Subscript) and norm(x.value) == 'revmap']
